@@ -845,9 +845,19 @@ class Infer(An[T]):
 
     def __post_init__(self):
         super().__post_init__()
-        for v in self._child_.selected_variables:
-            v._is_inferred_ = True
         self._node_.wrap_subtree = False
+
+    def _evaluate__(self, sources: Optional[Dict[int, HashedValue]] = None, yield_when_false: bool = False) -> Iterable[T]:
+        # the selected variables take their values from what is inferred while THIS query is evaluated: other queries
+        # over the same variables range over their instances as before.
+        marked = [v for v in self._child_.selected_variables if isinstance(v, Variable) and not v._is_inferred_]
+        for v in marked:
+            v._is_inferred_ = True
+        try:
+            yield from super()._evaluate__(sources, yield_when_false=yield_when_false)
+        finally:
+            for v in marked:
+                v._is_inferred_ = False
 
     @property
     def _plot_color_(self) -> ColorLegend:
